@@ -9,13 +9,6 @@ variable {H : Type} {ops : HeapOps H}
 
 @[simp] theorem outcome_bind_ok {α β : Type} (a : α) (f : α → Outcome β) : (Outcome.ok a >>= f) = f a := rfl
 
-theorem Frames.has_ty {T : Typing} {e : Nat} {f : Nat → VCell} {top bp l o : Nat} {K : List FDesc}
-    (h : Frames T e f top bp l o K) : ∃ t st, T l = some t ∧ stateAt t.tm o = some st := by
-  cases h with
-  | entry h1 _ h3 _ => exact ⟨_, _, h1, h3⟩
-  | frame h1 _ h3 => exact ⟨_, _, h1, h3⟩
-  | pre h1 _ h3 => exact ⟨_, _, h1, h3⟩
-
 /-- a WF state about to execute `op`: the verified typing of the current code object, the abstract
     state at the current offset, and the local check the verifier made there -/
 structure AtInstr (cl : CodeLaws ops) (s : St H) (K : List FDesc) (t : LamTy) (st : AState) (op : Op) : Prop where
@@ -24,6 +17,7 @@ structure AtInstr (cl : CodeLaws ops) (s : St H) (K : List FDesc) (t : LamTy) (s
   hst : stateAt t.tm s.ipO = some st
   chk : checkOp t.bc t.tm t.entry s.ipO st op = true
   fetch : ∀ k, ops.fetch s.heap s.ipL k = t.bc[k]?
+  src : bpSrcOk t.entry t.bc[s.ipO + 1]? = true
 
 theorem WFS.instr {cl : CodeLaws ops} {s s1 : St H} {K : List FDesc} {op : Op} (hw : WFS cl s K)
     (hr : readOpcode ops s = .ok (op, s1)) :
@@ -32,24 +26,46 @@ theorem WFS.instr {cl : CodeLaws ops} {s s1 : St H} {K : List FDesc} {op : Op} (
   obtain ⟨t, st, ht, hst⟩ := hw.wf.frames.has_ty
   obtain ⟨hcode, hchk⟩ := tyOf_spec ht
   have hfetch := cl.fetch_code hw.inv hcode
-  refine ⟨t, st, ⟨hw, ht, hst, ?_, hfetch⟩, e1⟩
   rw [hfetch] at hf
-  exact check_of_fetch hchk hf hst
+  exact ⟨t, st, ⟨hw, ht, hst, check_of_fetch hchk hf hst, hfetch, src_of_fetch hchk hf hst⟩, e1⟩
+
+/-- the typing of a code object is the same in a later heap -/
+theorem ty_unique {cl : CodeLaws ops} {h h' : H} (hext : Ext cl h h') {l : Nat} {t t' : LamTy}
+    (ht : tyOf (cl.code h) l = some t) (ht' : tyOf (cl.code h') l = some t') : t' = t := by
+  have := hext.ty l t ht
+  rw [ht'] at this
+  exact Option.some.inj this
+
+/-- the `pre` clause of `WFS` is vacuous at an instruction that is not a prologue instruction -/
+theorem pre_vacuous {cl : CodeLaws ops} {h : H} {s' : St H} (hext : Ext cl h s'.heap) {t : LamTy} {st' : AState}
+    (ht : tyOf (cl.code h) s'.ipL = some t) (hst' : stateAt t.tm s'.ipO = some st') (hne : st' ≠ .pre) :
+    ∀ t2 n, tyOf (cl.code s'.heap) s'.ipL = some t2 → stateAt t2.tm s'.ipO = some .pre →
+      s'.stack.cellAt (s'.stack.sp - 2) = .argc n →
+      argNeed t2.bc ≤ n ∨ enterLam ops s'.heap s'.acc = some s'.ipL := by
+  intro t2 n ht2 hpre _
+  have := ty_unique hext ht ht2
+  subst this
+  rw [hst'] at hpre
+  exact absurd (Option.some.inj hpre) hne
+
+theorem MatchSt.ne_pre {V : VCell → Prop} {st : AState} {f : Nat → VCell} {top lo : Nat}
+    (h : MatchSt V st f top lo) : st ≠ .pre := by
+  intro e; subst e; exact h
 
 /-- rebuild the current (non-prologue) frame with new temporaries, a later heap, a new offset -/
 theorem WFS.retop {cl : CodeLaws ops} {s : St H} {K : List FDesc} {t : LamTy} {st : AState}
     (hw : WFS cl s K) (ht : tyOf (cl.code s.heap) s.ipL = some t)
     (hst : stateAt t.tm s.ipO = some st) (hne : st ≠ .pre) :
-    ∃ lo, MatchSt st s.stack.cellAt s.stack.sp lo ∧ (t.entry = true → lo = cl.e) ∧
+    ∃ lo, MatchSt cl.Val st s.stack.cellAt s.stack.sp lo ∧ (t.entry = true → lo = cl.e) ∧
       (t.entry = false → lo = s.bp + 4) ∧
       ∀ (s' : St H) (st' : AState), Ext cl s.heap s'.heap → s'.bp = s.bp → s'.ipL = s.ipL →
         s'.stack.sp < s'.stack.cells.length →
-        (∀ i, i ≤ lo → s'.stack.cellAt i = s.stack.cellAt i) →
-        stateAt t.tm s'.ipO = some st' → MatchSt st' s'.stack.cellAt s'.stack.sp lo → WFS cl s' K := by
+        (∀ i, i ≤ lo → s'.stack.cellAt i = s.stack.cellAt i) → cl.Val s'.acc →
+        stateAt t.tm s'.ipO = some st' → MatchSt cl.Val st' s'.stack.cellAt s'.stack.sp lo → WFS cl s' K := by
   obtain ⟨lo, h1, h2, h3, h4⟩ := hw.wf.frames.inv_body ht hst hne
   refine ⟨lo, h1, h2, h3, ?_⟩
-  intro s' st' hext hbp hl hcap hcells hst' hm
-  refine ⟨hext.inv, hcap, ?_⟩
+  intro s' st' hext hbp hl hcap hcells hacc hst' hm
+  refine ⟨hext.inv, ⟨hcap, ?_⟩, hacc, pre_vacuous hext (by rw [hl]; exact ht) hst' hm.ne_pre⟩
   rw [hbp, hl]
   exact (h4 s'.stack.cellAt s'.stack.sp s'.ipO st' hcells hst' hm).mono hext.ty
 
@@ -59,21 +75,22 @@ theorem retop_same {cl : CodeLaws ops} {s : St H} {K : List FDesc} {t : LamTy} {
     (hw : WFS cl s K) (ht : tyOf (cl.code s.heap) s.ipL = some t)
     (hst : stateAt t.tm s.ipO = some (.body x)) (s' : St H) (hstack : s'.stack = s.stack)
     (hbp : s'.bp = s.bp) (hl : s'.ipL = s.ipL)
-    (hfl : flowsTo x (stateAt t.tm s'.ipO) = true) (hext : Ext cl s.heap s'.heap) : WFS cl s' K := by
+    (hfl : flowsTo x (stateAt t.tm s'.ipO) = true) (hext : Ext cl s.heap s'.heap)
+    (hacc : cl.Val s'.acc) : WFS cl s' K := by
   obtain ⟨lo, hm, _, _, hre⟩ := hw.retop ht hst (by simp)
   obtain ⟨st', hst', hm'⟩ := flowsTo_sound hfl hm
-  refine hre _ st' hext hbp hl (by rw [hstack]; exact hw.wf.cap) (fun _ _ => by rw [hstack]) hst'
+  refine hre _ st' hext hbp hl (by rw [hstack]; exact hw.wf.cap) (fun _ _ => by rw [hstack]) hacc hst'
     (by rw [hstack]; exact hm')
 
 theorem retop_push {cl : CodeLaws ops} {s : St H} {K : List FDesc} {t : LamTy} {x : List ACell}
     (hw : WFS cl s K) (ht : tyOf (cl.code s.heap) s.ipL = some t)
-    (hst : stateAt t.tm s.ipO = some (.body x)) {ty : ACell} {v : VCell} (hv : cellOk ty v)
+    (hst : stateAt t.tm s.ipO = some (.body x)) {ty : ACell} {v : VCell} (hv : cellOk cl.Val ty v)
     (s' : St H) (hstack : s'.stack = s.stack.push v) (hbp : s'.bp = s.bp) (hl : s'.ipL = s.ipL)
-    (hfl : flowsTo (ty :: x) (stateAt t.tm s'.ipO) = true) (hext : Ext cl s.heap s'.heap) :
-    WFS cl s' K := by
+    (hfl : flowsTo (ty :: x) (stateAt t.tm s'.ipO) = true) (hext : Ext cl s.heap s'.heap)
+    (hacc : cl.Val s'.acc) : WFS cl s' K := by
   obtain ⟨lo, hm, _, _, hre⟩ := hw.retop ht hst (by simp)
   have hlo : lo ≤ s.stack.sp := MatchSt.lo_le hm
-  have hm2 : MatchAt (ty :: x) (s.stack.push v).cellAt (s.stack.sp + 1) lo := by
+  have hm2 : MatchAt cl.Val (ty :: x) (s.stack.push v).cellAt (s.stack.sp + 1) lo := by
     refine MatchAt.push hm ?_ ?_
     · intro i hi
       rw [push_cellAt]
@@ -81,7 +98,7 @@ theorem retop_push {cl : CodeLaws ops} {s : St H} {K : List FDesc} {t : LamTy} {
       simp [this]
     · rw [push_cellAt]; simpa using hv
   obtain ⟨st', hst', hm'⟩ := flowsTo_sound hfl hm2
-  refine hre _ st' hext hbp hl (by rw [hstack]; exact push_sp_lt _ _) ?_ hst'
+  refine hre _ st' hext hbp hl (by rw [hstack]; exact push_sp_lt _ _) ?_ hacc hst'
     (by rw [hstack]; simpa using hm')
   intro i hi
   rw [hstack, push_cellAt]
@@ -93,17 +110,17 @@ theorem retop_drop {cl : CodeLaws ops} {s : St H} {K : List FDesc} {t : LamTy} {
     (hst : stateAt t.tm s.ipO = some (.body x)) {k : Nat} (hk : k ≤ x.length) (s' : St H)
     (hsp : s'.stack.sp + k = s.stack.sp) (hc : s'.stack.cells = s.stack.cells)
     (hbp : s'.bp = s.bp) (hl : s'.ipL = s.ipL)
-    (hfl : flowsTo (x.drop k) (stateAt t.tm s'.ipO) = true) (hext : Ext cl s.heap s'.heap) :
-    WFS cl s' K := by
+    (hfl : flowsTo (x.drop k) (stateAt t.tm s'.ipO) = true) (hext : Ext cl s.heap s'.heap)
+    (hacc : cl.Val s'.acc) : WFS cl s' K := by
   obtain ⟨lo, hm, _, _, hre⟩ := hw.retop ht hst (by simp)
   have hcell : ∀ i, s'.stack.cellAt i = s.stack.cellAt i := by intro i; unfold Stack.cellAt; rw [hc]
-  have hm2 : MatchAt (x.drop k) s'.stack.cellAt s'.stack.sp lo := by
+  have hm2 : MatchAt cl.Val (x.drop k) s'.stack.cellAt s'.stack.sp lo := by
     have := MatchAt.drop hm hk
     have e : s.stack.sp - k = s'.stack.sp := by omega
     rw [e] at this
     exact this.congr (fun i _ => hcell i)
   obtain ⟨st', hst', hm'⟩ := flowsTo_sound hfl hm2
-  refine hre _ st' hext hbp hl ?_ (fun i _ => hcell i) hst' hm'
+  refine hre _ st' hext hbp hl ?_ (fun i _ => hcell i) hacc hst' hm'
   rw [hc]; have := hw.wf.cap; omega
 
 /-- reading the operand that follows -/
@@ -116,6 +133,20 @@ theorem AtInstr.operand {cl : CodeLaws ops} {s s1 s2 : St H} {K : List FDesc} {t
   simp only at hf e2
   rw [ai.fetch] at hf
   exact ⟨hf, e2⟩
+
+/-- a bp-relative source operand of verified procedure code addresses an argument cell, which holds a value -/
+theorem AtInstr.bp_val {cl : CodeLaws ops} {s : St H} {K : List FDesc} {t : LamTy} {x : List ACell} {op : Op}
+    (ai : AtInstr cl s K t (.body x) op) {off : Int} (h : t.bc[s.ipO + 1]? = some (.bpOffset off))
+    (h0 : 0 ≤ (s.bp : Int) + off) : cl.Val (s.stack.cellAt ((s.bp : Int) + off).toNat) := by
+  have hs := ai.src
+  rw [h] at hs
+  simp only [bpSrcOk, Bool.and_eq_true, Bool.not_eq_true', decide_eq_true_eq] at hs
+  obtain ⟨hent, hoff⟩ := hs
+  obtain ⟨n, l', o', hA, _, hn, hnd, hav, _⟩ := ai.hw.wf.frames.inv_args ai.ht hent ai.hst (by simp)
+  have := argNeed_ge h
+  have e : ((s.bp : Int) + off).toNat = s.bp - (-off).toNat := by omega
+  rw [e]
+  exact hav _ (by omega) (by omega)
 
 theorem pres_jmp {cl : CodeLaws ops} {s s1 s' : St H} {K : List FDesc} {t : LamTy} {st : AState} {b : Bool}
     (ai : AtInstr cl s K t st .jmp) (hr : readOpcode ops s = .ok (.jmp, s1))
@@ -142,7 +173,7 @@ theorem pres_jmp {cl : CodeLaws ops} {s s1 s' : St H} {K : List FDesc} {t : LamT
     have chk := ai.chk
     cases st <;> simp only [checkOp, hf'] at chk <;> try (exact absurd chk Bool.false_ne_true)
     rename_i x
-    exact retop_same ai.hw ai.ht ai.hst _ rfl rfl rfl chk (Ext.refl ai.hw.inv)
+    exact retop_same ai.hw ai.ht ai.hst _ rfl rfl rfl chk (Ext.refl ai.hw.inv) ai.hw.acc
 
 theorem pres_jnt {cl : CodeLaws ops} {s s1 s' : St H} {K : List FDesc} {t : LamTy} {st : AState} {b : Bool}
     (ai : AtInstr cl s K t st .jnt) (hr : readOpcode ops s = .ok (.jnt, s1))
@@ -168,9 +199,9 @@ theorem pres_jnt {cl : CodeLaws ops} {s s1 s' : St H} {K : List FDesc} {t : LamT
     simp only [asPtr, outcome_bind_ok] at hs
     split at hs
     · cases hs
-      exact retop_same ai.hw ai.ht ai.hst _ rfl rfl rfl chk.1 (Ext.refl ai.hw.inv)
+      exact retop_same ai.hw ai.ht ai.hst _ rfl rfl rfl chk.1 (Ext.refl ai.hw.inv) ai.hw.acc
     · cases hs
-      exact retop_same ai.hw ai.ht ai.hst _ rfl rfl rfl chk.2 (Ext.refl ai.hw.inv)
+      exact retop_same ai.hw ai.ht ai.hst _ rfl rfl rfl chk.2 (Ext.refl ai.hw.inv) ai.hw.acc
 
 theorem pres_pushAcc {cl : CodeLaws ops} {s s1 s' : St H} {K : List FDesc} {t : LamTy} {st : AState} {b : Bool}
     (ai : AtInstr cl s K t st .pushAcc) (hr : readOpcode ops s = .ok (.pushAcc, s1))
@@ -183,7 +214,8 @@ theorem pres_pushAcc {cl : CodeLaws ops} {s s1 s' : St H} {K : List FDesc} {t : 
   subst e1
   have chk := ai.chk
   cases st <;> simp only [checkOp] at chk <;> try (exact absurd chk Bool.false_ne_true)
-  exact retop_push (v := s.acc) ai.hw ai.ht ai.hst (ty := .any) trivial _ rfl rfl rfl chk (Ext.refl ai.hw.inv)
+  exact retop_push (v := s.acc) ai.hw ai.ht ai.hst (ty := .val) ai.hw.acc _ rfl rfl rfl chk (Ext.refl ai.hw.inv)
+    ai.hw.acc
 
 theorem pres_pushImm {cl : CodeLaws ops} {s s1 s' : St H} {K : List FDesc} {t : LamTy} {st : AState} {b : Bool}
     (ai : AtInstr cl s K t st .pushImm) (hr : readOpcode ops s = .ok (.pushImm, s1))
@@ -205,7 +237,16 @@ theorem pres_pushImm {cl : CodeLaws ops} {s s1 s' : St H} {K : List FDesc} {t : 
     have chk := ai.chk
     cases st <;> simp only [checkOp, hf] at chk <;> try (exact absurd chk Bool.false_ne_true)
     refine retop_push (v := v) ai.hw ai.ht ai.hst (ty := cellTy v) ?_ _ rfl rfl rfl chk (Ext.refl ai.hw.inv)
-    cases v <;> simp [cellTy, cellOk]
+      ai.hw.acc
+    by_cases hv : ∃ n, v = .argc n
+    · obtain ⟨n, rfl⟩ := hv
+      exact ⟨rfl, cl.val_imm _ rfl⟩
+    · have e : cellTy v = if isVal v then .val else .any := by
+        cases v <;> first | rfl | exact absurd ⟨_, rfl⟩ hv
+      rw [e]
+      by_cases hiv : isVal v = true
+      · simp only [hiv, if_true]; exact cl.val_imm _ hiv
+      · simp only [hiv]; trivial
 
 theorem pres_push {cl : CodeLaws ops} {s s1 s' : St H} {K : List FDesc} {t : LamTy} {st : AState} {b : Bool}
     (ai : AtInstr cl s K t st .push) (hr : readOpcode ops s = .ok (.push, s1))
@@ -228,6 +269,7 @@ theorem pres_push {cl : CodeLaws ops} {s s1 s' : St H} {K : List FDesc} {t : Lam
     have chk := ai.chk
     cases st <;> simp only [checkOp] at chk <;> try (exact absurd chk Bool.false_ne_true)
     exact retop_push (v := v) ai.hw ai.ht ai.hst (ty := .any) trivial _ rfl rfl rfl chk (Ext.refl ai.hw.inv)
+      ai.hw.acc
 
 theorem pres_closure {cl : CodeLaws ops} {s s1 s' : St H} {K : List FDesc} {t : LamTy} {st : AState} {b : Bool}
     (ai : AtInstr cl s K t st .closureAcc) (hr : readOpcode ops s = .ok (.closureAcc, s1))
@@ -252,6 +294,7 @@ theorem pres_closure {cl : CodeLaws ops} {s s1 s' : St H} {K : List FDesc} {t : 
       have chk := ai.chk
       cases st <;> simp only [checkOp] at chk <;> try (exact absurd chk Bool.false_ne_true)
       exact retop_same ai.hw ai.ht ai.hst _ rfl rfl rfl chk (Ext.step ai.hw.inv (.makeClosure hm))
+        (cl.makeClosure_val hm)
 
 theorem pres_mov {cl : CodeLaws ops} {s s1 s' : St H} {K : List FDesc} {t : LamTy} {st : AState} {b : Bool}
     (ai : AtInstr cl s K t st .mov) (hr : readOpcode ops s = .ok (.mov, s1))
@@ -279,11 +322,22 @@ theorem pres_mov {cl : CodeLaws ops} {s s1 s' : St H} {K : List FDesc} {t : LamT
       cases hs
       have chk := ai.chk
       cases st <;> simp only [checkOp, Bool.and_eq_true] at chk <;> try (exact absurd chk Bool.false_ne_true)
-      obtain ⟨c1, c2⟩ := chk
+      obtain ⟨⟨c0, c1⟩, c2⟩ := chk
       have hnb : dstOk (ops.fetch s.heap s.ipL (s.ipO + 1 + 1)) = true := by
         rw [ai.fetch]; exact c1
       obtain ⟨q1, q2, q3, q4, q5⟩ := storeOperand_ok (cl := cl) (s := { s with ipO := s.ipO + 1 + 1 }) ai.hw.inv hso hnb
-      refine retop_same ai.hw ai.ht ai.hst _ q1 q2 q3 ?_ q5
+      have hv : cl.Val v := by
+        refine loadOperand_val (cl := cl) (s := { s with ipO := s.ipO + 1 }) hlo ai.hw.acc ?_ ?_
+        · show srcOk (ops.fetch s.heap s.ipL (s.ipO + 1)) = true
+          rw [ai.fetch]; exact c0
+        · intro off hf h0 _
+          have hf' : t.bc[s.ipO + 1]? = some (.bpOffset off) := by rw [← ai.fetch]; exact hf
+          exact ai.bp_val hf' h0
+      have hacc : cl.Val s'.acc := by
+        rcases storeOperand_acc hso with e | e
+        · rw [e]; exact hv
+        · rw [e]; exact ai.hw.acc
+      refine retop_same ai.hw ai.ht ai.hst _ q1 q2 q3 ?_ q5 hacc
       rw [q4]; exact c2
 
 theorem pres_movImm {cl : CodeLaws ops} {s s1 s' : St H} {K : List FDesc} {t : LamTy} {st : AState} {b : Bool}
@@ -299,7 +353,7 @@ theorem pres_movImm {cl : CodeLaws ops} {s s1 s' : St H} {K : List FDesc} {t : L
   | ok r =>
     obtain ⟨v, s2⟩ := r
     rw [hro] at hs
-    obtain ⟨_, e2⟩ := ai.operand 1 e1 hro
+    obtain ⟨hfv, e2⟩ := ai.operand 1 e1 hro
     subst e2
     simp only [outcome_bind_ok] at hs
     cases hso : storeOperand ops { s with ipO := s.ipO + 1 + 1 } v with
@@ -311,11 +365,18 @@ theorem pres_movImm {cl : CodeLaws ops} {s s1 s' : St H} {K : List FDesc} {t : L
       cases hs
       have chk := ai.chk
       cases st <;> simp only [checkOp, Bool.and_eq_true] at chk <;> try (exact absurd chk Bool.false_ne_true)
-      obtain ⟨c1, c2⟩ := chk
+      obtain ⟨⟨c0, c1⟩, c2⟩ := chk
       have hnb : dstOk (ops.fetch s.heap s.ipL (s.ipO + 1 + 1)) = true := by
         rw [ai.fetch]; exact c1
       obtain ⟨q1, q2, q3, q4, q5⟩ := storeOperand_ok (cl := cl) (s := { s with ipO := s.ipO + 1 + 1 }) ai.hw.inv hso hnb
-      refine retop_same ai.hw ai.ht ai.hst _ q1 q2 q3 ?_ q5
+      have hv : cl.Val v := by
+        rw [hfv] at c0
+        exact cl.val_imm v c0
+      have hacc : cl.Val s'.acc := by
+        rcases storeOperand_acc hso with e | e
+        · rw [e]; exact hv
+        · rw [e]; exact ai.hw.acc
+      refine retop_same ai.hw ai.ht ai.hst _ q1 q2 q3 ?_ q5 hacc
       rw [q4]; exact c2
 
 theorem pres_halt {cl : CodeLaws ops} {s s1 s' : St H} {K : List FDesc} {t : LamTy} {st : AState} {b : Bool}
@@ -330,13 +391,21 @@ theorem pres_halt {cl : CodeLaws ops} {s s1 s' : St H} {K : List FDesc} {t : Lam
   have chk := ai.chk
   cases st <;> simp only [checkOp, Bool.and_eq_true] at chk <;> try (exact absurd chk Bool.false_ne_true)
   rename_i x
-  obtain ⟨c1, c2⟩ := chk
+  obtain ⟨⟨c1, c2⟩, _⟩ := chk
   obtain ⟨lo, hm, hlo, _, _⟩ := ai.hw.retop ai.ht ai.hst (by simp)
   have := hlo c1
   subst this
   cases x with
   | nil => exact ⟨rfl, rfl, hm⟩
   | cons a x => simp at c2
+
+/-- HALT is the last cell of its code object: the halted state has no instruction to execute -/
+theorem halt_last {cl : CodeLaws ops} {s : St H} {K : List FDesc} {t : LamTy} {st : AState}
+    (ai : AtInstr cl s K t st .halt) : s.ipO + 1 = t.bc.length := by
+  have chk := ai.chk
+  cases st <;> simp only [checkOp, Bool.and_eq_true, decide_eq_true_eq] at chk <;>
+    try (exact absurd chk Bool.false_ne_true)
+  exact chk.2
 
 theorem pres_cons {cl : CodeLaws ops} {s s1 s' : St H} {K : List FDesc} {t : LamTy} {st : AState} {b : Bool}
     (ai : AtInstr cl s K t st .cons) (hr : readOpcode ops s = .ok (.cons, s1))
@@ -377,10 +446,12 @@ theorem pres_cons {cl : CodeLaws ops} {s s1 s' : St H} {K : List FDesc} {t : Lam
           have chk := ai.chk
           cases st <;> simp only [checkOp] at chk <;> try (exact absurd chk Bool.false_ne_true)
           rename_i x
-          rcases x with _ | ⟨c1, _ | ⟨c2, x⟩⟩ <;> simp only at chk <;> try (exact absurd chk Bool.false_ne_true)
+          rcases x with _ | ⟨c1, _ | ⟨c2, x⟩⟩ <;> simp only [Bool.and_eq_true] at chk <;>
+            try (exact absurd chk Bool.false_ne_true)
           refine retop_drop (k := 2) ai.hw ai.ht ai.hst (by simp) _ (by show st2.sp + 2 = s.stack.sp; omega)
             (by show st2.cells = s.stack.cells; rw [p2.2.1, p1.2.1]) rfl rfl ?_ ((ext1.trans ext2).trans ext3)
-          simpa using chk
+            (cl.put_val _ _)
+          simpa using chk.2
 
 theorem pres_vpush {cl : CodeLaws ops} {s s1 s' : St H} {K : List FDesc} {t : LamTy} {st : AState} {b : Bool}
     (ai : AtInstr cl s K t st .vpushAcc) (hr : readOpcode ops s = .ok (.vpushAcc, s1))
@@ -409,6 +480,7 @@ theorem pres_vpush {cl : CodeLaws ops} {s s1 s' : St H} {K : List FDesc} {t : La
       rcases x with _ | ⟨c1, x⟩ <;> simp only at chk <;> try (exact absurd chk Bool.false_ne_true)
       refine retop_drop (k := 1) ai.hw ai.ht ai.hst (by simp) _ (by show st1.sp + 1 = s.stack.sp; omega)
         (by show st1.cells = s.stack.cells; exact p1.2.1) rfl rfl ?_ (Ext.step ai.hw.inv (.vectorPush hv))
+        (cl.vectorPush_val hv)
       simpa using chk
 
 /-! ## ENTER, RET -/
@@ -424,11 +496,25 @@ theorem pres_enter {cl : CodeLaws ops} {s s1 s' : St H} {K : List FDesc} {t : La
   cases hs
   subst e1
   obtain ⟨q1, q2, q3, q4, q5⟩ := stepEnter_ok (cl := cl) (s := { s with ipO := s.ipO + 1 }) ai.hw.inv he
-  simp only at q1 q2 q3 q4 q5
+  obtain ⟨elam, einfo, el1, el2, el3⟩ := stepEnter_lam he
+  have hacc' : s'.acc = s.acc := stepEnter_acc (s := { s with ipO := s.ipO + 1 }) he
+  simp only at q1 q2 q3 q4 q5 el1 el2 el3
   have chk := ai.chk
   cases st <;> simp only [checkOp, Bool.and_eq_true] at chk <;> try (exact absurd chk Bool.false_ne_true)
   obtain ⟨c1, c2⟩ := chk
   obtain ⟨hent, n, ep', l', o', K', hn, hI, hE, hA, hfr, hK⟩ := ai.hw.wf.frames.inv_pre ai.ht ai.hst
+  obtain ⟨n2, l2, o2, hA2, hI2, _, hav, hnp⟩ := ai.hw.wf.frames.inv_pre_args ai.ht ai.hst
+  rw [hA] at hA2; cases hA2
+  rw [hI] at hI2; cases hI2
+  -- the argument count covers the argument cells the code addresses
+  have hneed : argNeed t.bc ≤ n := by
+    rcases ai.hw.pre t n ai.ht ai.hst hA with h | h
+    · exact h
+    · rw [el1] at h
+      cases h
+      rw [hA] at el3
+      cases el3
+      exact cl.info_code ai.hw.inv (tyOf_spec ai.ht).1 el2
   have hcell : ∀ i, i ≤ s.stack.sp → s'.stack.cellAt i = s.stack.cellAt i := by
     intro i hi
     rw [q1, push_cellAt]
@@ -436,16 +522,18 @@ theorem pres_enter {cl : CodeLaws ops} {s s1 s' : St H} {K : List FDesc} {t : La
     simp [this]
   have hsp : s'.stack.sp = s.stack.sp + 1 := by rw [q1]; simp
   have hbp : s'.bp = s.stack.sp - 3 := by omega
-  have hm0 : MatchAt [] s'.stack.cellAt s'.stack.sp (s'.bp + 4) := by
+  have hm0 : MatchAt cl.Val [] s'.stack.cellAt s'.stack.sp (s'.bp + 4) := by
     show s'.stack.sp = s'.bp + 4
     omega
   obtain ⟨st', hst', hm'⟩ := flowsTo_sound c2 hm0
-  refine ⟨q5.inv, by rw [q1]; exact push_sp_lt _ _, ?_⟩
+  have hst'' : stateAt t.tm s'.ipO = some st' := by rw [q4]; exact hst'
+  refine ⟨q5.inv, ⟨by rw [q1]; exact push_sp_lt _ _, ?_⟩, by rw [hacc']; exact ai.hw.acc,
+    pre_vacuous q5 (by rw [q3]; exact ai.ht) hst'' hm'.ne_pre⟩
   refine Frames.mono q5.ty ?_
   rw [q3, q4, hK]
   have hb : s.stack.sp - 2 - n = s'.bp + 1 - n := by omega
   rw [hb]
-  refine Frames.frame (n := n) (bp' := s.bp) ai.ht hent hst' hm' ?_ ?_ ?_ ?_ (by omega) ?_
+  refine Frames.frame (n := n) (bp' := s.bp) ai.ht hent hst' hm' ?_ ?_ ?_ ?_ (by omega) hneed ?_ hnp ?_
   · rw [hcell _ (by omega)]; have : s'.bp + 1 = s.stack.sp - 2 := by omega
     rw [this]; exact hA
   · rw [hcell _ (by omega)]; have : s'.bp + 2 = s.stack.sp - 1 := by omega
@@ -454,6 +542,9 @@ theorem pres_enter {cl : CodeLaws ops} {s s1 s' : St H} {K : List FDesc} {t : La
     rw [this]; exact hI
   · have : s'.bp + 4 = s.stack.sp + 1 := by omega
     rw [this, q1, push_cellAt]; simp
+  · intro i hi1 hi2
+    rw [hcell _ (by omega)]
+    exact hav i (by omega) (by omega)
   · have : s'.bp - n = s.stack.sp - 3 - n := by omega
     rw [this]
     exact hfr.congr (fun i hi => hcell i (by omega))
@@ -473,33 +564,38 @@ theorem pres_ret {cl : CodeLaws ops} {s s1 s' : St H} {K : List FDesc} {t : LamT
   have hent : t.entry = false := by simpa using chk
   obtain ⟨n, ep', l', o', bp', K', hm, hA, hE, hI, hB, hn, hfr, hK⟩ :=
     ai.hw.wf.frames.inv_frame ai.ht hent ai.hst (by simp)
+  obtain ⟨n3, l3, o3, hA3, hI3, _, _, _, hnp⟩ := ai.hw.wf.frames.inv_args ai.ht hent ai.hst (by simp)
+  rw [hI] at hI3; cases hI3
   obtain ⟨n2, ep2, l2, o2, bp2, r1, r2, r3, r4, r5, r6⟩ := stepRet_ok he
   simp only at r1 r2 r3 r4 r5 r6
   rw [hA] at r1; rw [hE] at r2; rw [hI] at r3; rw [hB] at r4
   cases r1; cases r2; cases r3; cases r4
   subst r6
   have hlo := hm.lo_le
-  refine ⟨_, K', hK, ⟨ai.hw.inv, ?_, ?_⟩, ?_⟩
+  refine ⟨_, K', hK, ⟨ai.hw.inv, ⟨?_, ?_⟩, ai.hw.acc, ?_⟩, ?_⟩
   · show s.bp - n < s.stack.cells.length
     have := ai.hw.wf.cap; omega
   · exact hfr
+  · intro t2 n2 ht2 hpre _
+    exact absurd hpre (hnp t2 ht2)
   · show s.bp - n + 1 = s.bp + 1 - n
     omega
 
 /-! ## CALL / TCALL: the arms shared by both -/
 
 /-- the frame CALL sets up for a verified procedure: from a call state to the callee's prologue -/
-theorem frames_call {T : Typing} {e : Nat} {f f' : Nat → VCell} {top bp l o : Nat} {K : List FDesc}
-    {t : LamTy} {a : List ACell} (hfr : Frames T e f top bp l o K) (ht : T l = some t)
+theorem frames_call {V : VCell → Prop} {T : Typing} {e : Nat} {f f' : Nat → VCell} {top bp l o : Nat}
+    {K : List FDesc}
+    {t : LamTy} {a : List ACell} (hfr : Frames V T e f top bp l o K) (ht : T l = some t)
     (hst : stateAt t.tm o = some (.call a)) (hfl : flowsTo a (stateAt t.tm (o + 1)) = true)
     {lam : Nat} {tl : LamTy} (htl : T lam = some tl) (hent : tl.entry = false)
     (hchk : checkAll tl.bc tl.tm tl.entry = true) {ep : Nat}
     (hf' : ∀ i, i ≤ top → f' i = f i) (h1 : f' (top + 1) = .envPtr ep)
     (h2 : f' (top + 2) = .instrPtr l (o + 1)) :
     ∃ m, f top = .argc m ∧
-      Frames T e f' (top + 2) bp lam 0 (⟨top + 2 - 2 - m, .envPtr ep, .instrPtr l (o + 1), bp⟩ :: K) := by
+      Frames V T e f' (top + 2) bp lam 0 (⟨top + 2 - 2 - m, .envPtr ep, .instrPtr l (o + 1), bp⟩ :: K) := by
   obtain ⟨lo, hm, _, _, hre⟩ := hfr.inv_body ht hst (by simp)
-  obtain ⟨m, hA, hle, hma⟩ := hm
+  obtain ⟨m, hA, hle, hvals, hma⟩ := hm
   obtain ⟨st', hst', hm'⟩ := flowsTo_sound hfl hma
   have hcaller := hre f' (top - 1 - m) (o + 1) st' (fun i hi => hf' i (by omega)) hst'
     (hm'.congr (fun i hi => hf' i (by omega)))
@@ -508,16 +604,27 @@ theorem frames_call {T : Typing} {e : Nat} {f f' : Nat → VCell} {top bp l o : 
     rw [hent] at this
     simpa [initState] using this
   have e3 : top + 2 - 3 - m = top - 1 - m := by omega
-  refine ⟨m, hA, Frames.pre (n := m) (ep' := ep) (l' := l) (o' := o + 1) htl hent hpre (by omega) h2 ?_ ?_ ?_⟩
+  have hnp : ∀ t', T l = some t' → stateAt t'.tm (o + 1) ≠ some .pre := by
+    intro t' ht'
+    rw [ht] at ht'
+    have e : t = t' := Option.some.inj ht'
+    rw [← e, hst']
+    intro hh
+    exact hm'.ne_pre (Option.some.inj hh)
+  refine ⟨m, hA, Frames.pre (n := m) (ep' := ep) (l' := l) (o' := o + 1) htl hent hpre (by omega) h2 ?_ ?_ ?_ hnp ?_⟩
   · have : top + 2 - 1 = top + 1 := by omega
     rw [this]; exact h1
   · have : top + 2 - 2 = top := by omega
     rw [this, hf' top (Nat.le_refl _)]; exact hA
+  · intro i hi1 hi2
+    rw [hf' i (by omega)]
+    exact hvals i (by omega) (by omega)
   · rw [e3]; exact hcaller
 
 theorem pres_call_proc {cl : CodeLaws ops} {s : St H} {K : List FDesc} {t : LamTy} {a : List ACell} {op : Op}
     (ai : AtInstr cl s K t (.call a) op) (hfl : flowsTo a (stateAt t.tm (s.ipO + 1)) = true)
-    {lam : Nat} {tl : LamTy} (htl : tyOf (cl.code s.heap) lam = some tl) (hent : tl.entry = false) :
+    {lam : Nat} {tl : LamTy} (htl : tyOf (cl.code s.heap) lam = some tl) (hent : tl.entry = false)
+    (hlam : enterLam ops s.heap s.acc = some lam) :
     ∃ m, s.stack.cellAt s.stack.sp = .argc m ∧
       WFS cl { s with stack := (s.stack.push (.envPtr s.ep)).push (.instrPtr s.ipL (s.ipO + 1)),
                          ipL := lam, ipO := 0 }
@@ -536,7 +643,7 @@ theorem pres_call_proc {cl : CodeLaws ops} {s : St H} {K : List FDesc} {t : LamT
       have n1 : ¬ s.stack.sp + 1 = s.stack.sp + 1 + 1 := by omega
       simp [n1])
     (by rw [push_cellAt, push_sp]; simp)
-  refine ⟨m, hmA, ai.hw.inv, push_sp_lt _ _, ?_⟩
+  refine ⟨m, hmA, ai.hw.inv, ⟨push_sp_lt _ _, ?_⟩, ai.hw.acc, fun _ _ _ _ _ => .inr hlam⟩
   simpa using hd
 
 /-- the run-time characterisation of a call state -/
@@ -547,24 +654,35 @@ theorem AtInstr.call_block {cl : CodeLaws ops} {s : St H} {K : List FDesc} {t : 
   obtain ⟨lo, ⟨m, h1, h2, _⟩, _, h3, _⟩ := ai.hw.wf.frames.inv_body ai.ht ai.hst (by simp)
   exact ⟨m, h1, by omega, fun he => by have := h3 he; omega⟩
 
+/-- the argument block of a call state holds values -/
+theorem AtInstr.call_vals {cl : CodeLaws ops} {s : St H} {K : List FDesc} {t : LamTy} {a : List ACell}
+    {op : Op} (ai : AtInstr cl s K t (.call a) op) {m : Nat} (hA : s.stack.cellAt s.stack.sp = .argc m) :
+    ∀ i, s.stack.sp - 1 - m < i → i < s.stack.sp → cl.Val (s.stack.cellAt i) := by
+  obtain ⟨lo, ⟨m0, h1, h2, hv, _⟩, _, _, _⟩ := ai.hw.wf.frames.inv_body ai.ht ai.hst (by simp)
+  rw [hA] at h1; cases h1
+  exact hv
+
 /-- after a builtin that re-dispatched: same CALL/TCALL, another argument block -/
 theorem retop_redispatch {cl : CodeLaws ops} {s : St H} {K : List FDesc} {t : LamTy} {a : List ACell}
     {op : Op} (ai : AtInstr cl s K t (.call a) op) {m : Nat} (hA : s.stack.cellAt s.stack.sp = .argc m)
     (s1 s' : St H) (e1 : s1 = { s with ipO := s.ipO + 1 }) (hr : Redisp s1 s' m)
+    (hvals : ∀ m', s'.stack.cellAt s'.stack.sp = .argc m' → ∀ i, s'.stack.sp - 1 - m' < i → i < s'.stack.sp →
+      cl.Val (s'.stack.cellAt i))
+    (hacc : cl.Val s'.acc)
     (hext : Ext cl s.heap s'.heap) : WFS cl s' K := by
   subst e1
-  obtain ⟨lo, ⟨m0, h1, h2, h3⟩, _, _, hre⟩ := ai.hw.retop ai.ht ai.hst (by simp)
+  obtain ⟨lo, ⟨m0, h1, h2, _, h3⟩, _, _, hre⟩ := ai.hw.retop ai.ht ai.hst (by simp)
   rw [hA] at h1; cases h1
   obtain ⟨m', b1, b2, b3⟩ := hr.blk
   simp only at b3
   have hbelow := hr.below
   simp only at hbelow
-  refine hre s' (.call a) hext hr.bp hr.ipL hr.cap (fun i hi => hbelow i (by omega)) ?_ ?_
+  refine hre s' (.call a) hext hr.bp hr.ipL hr.cap (fun i hi => hbelow i (by omega)) hacc ?_ ?_
   · have := hr.ipO
     simp only at this
     have e : s'.ipO = s.ipO := by omega
     rw [e]; exact ai.hst
-  · refine ⟨m', b1, by omega, ?_⟩
+  · refine ⟨m', b1, by omega, hvals m' b1, ?_⟩
     rw [b3]
     exact h3.congr (fun i hi => hbelow i hi)
 
@@ -574,13 +692,14 @@ theorem retop_return {cl : CodeLaws ops} {s : St H} {K : List FDesc} {t : LamTy}
     {m : Nat} (hA : s.stack.cellAt s.stack.sp = .argc m) (s' : St H)
     (hsp : s'.stack.sp + m + 1 = s.stack.sp) (hc : s'.stack.cells = s.stack.cells)
     (hbp : s'.bp = s.bp) (hl : s'.ipL = s.ipL) (hip : s'.ipO = s.ipO + 1)
+    (hacc : cl.Val s'.acc)
     (hext : Ext cl s.heap s'.heap) : WFS cl s' K := by
-  obtain ⟨lo, ⟨m0, h1, h2, h3⟩, _, _, hre⟩ := ai.hw.retop ai.ht ai.hst (by simp)
+  obtain ⟨lo, ⟨m0, h1, h2, _, h3⟩, _, _, hre⟩ := ai.hw.retop ai.ht ai.hst (by simp)
   rw [hA] at h1; cases h1
   have hcell : ∀ i, s'.stack.cellAt i = s.stack.cellAt i := by intro i; unfold Stack.cellAt; rw [hc]
   obtain ⟨st', hst', hm'⟩ := flowsTo_sound hfl h3
   have e : s.stack.sp - 1 - m = s'.stack.sp := by omega
-  refine hre s' st' hext hbp hl ?_ (fun i _ => hcell i) (by rw [hip]; exact hst') ?_
+  refine hre s' st' hext hbp hl ?_ (fun i _ => hcell i) hacc (by rw [hip]; exact hst') ?_
   · rw [hc]; have := ai.hw.wf.cap; omega
   · rw [← e]; exact hm'.congr (fun i _ => hcell i)
 
@@ -590,12 +709,15 @@ theorem pres_builtin {cl : CodeLaws ops} {s s1 s' : St H} {K : List FDesc} {t : 
     (e1 : s1 = { s with ipO := s.ipO + 1 }) {id : Nat} (hs : runBuiltin ops id s1 = .ok s') :
     WFS cl s' K := by
   obtain ⟨m, hA, hm, _⟩ := ai.call_block
+  have hbv := ai.call_vals hA
+  have hacc : cl.Val s'.acc := runBuiltin_acc (cl := cl) hs
   obtain ⟨s2, v, hb, q1, q2, q3, q4, q5⟩ := runBuiltin_ok (cl := cl) hs
   have hcap1 : s1.stack.sp < s1.stack.cells.length := by subst e1; exact ai.hw.wf.cap
   have hA1 : s1.stack.cellAt s1.stack.sp = .argc m := by subst e1; exact hA
   have hm1 : m + 1 ≤ s1.stack.sp := by subst e1; exact hm
   have hi1 : cl.HInv s1.heap := by subst e1; exact ai.hw.inv
   have hh1 : s1.heap = s.heap := by subst e1; rfl
+  have hst1 : s1.stack = s.stack := by subst e1; rfl
   have redisp : ∀ (s2 : St H), Redisp s1 s2 m → s'.stack = s2.stack → s'.bp = s2.bp → s'.ipL = s2.ipL →
       s'.ipO = s2.ipO → Redisp s1 s' m := by
     intro s2 r w1 w2 w3 w4
@@ -604,56 +726,95 @@ theorem pres_builtin {cl : CodeLaws ops} {s s1 s' : St H} {K : List FDesc} {t : 
   cases hk : ops.builtinKind s1.heap id <;> rw [hk] at hb <;> dsimp only at hb
   · -- apply
     obtain ⟨r, hh⟩ := builtinApply_ok hb hcap1 hA1 hm1
+    obtain ⟨_, hprov⟩ := builtinApply_prov hb hcap1 hA1 hm1
     have hi2 : cl.HInv s2.heap := by rw [hh]; exact hi1
     have ext : Ext cl s.heap s'.heap := by
       have := q5 hi2
       rw [hh, hh1] at this; exact this
-    exact retop_redispatch ai hA s1 s' e1 (redisp s2 r q1 q2 q3 q4) ext
+    refine retop_redispatch ai hA s1 s' e1 (redisp s2 r q1 q2 q3 q4) ?_ hacc ext
+    intro m' hm' i hi1' hi2'
+    rw [q1] at hm' hi1' hi2' ⊢
+    rcases hprov m' hm' i hi1' hi2' with ⟨j, j1, j2, j3⟩ | ⟨a', ha'⟩
+    · rw [j3, hst1]; rw [hst1] at j1 j2; exact hbv j j1 j2
+    · rw [ha']; exact cl.val_imm _ rfl
   · -- eval
     obtain ⟨r, hx⟩ := builtinEvalProc_ok (cl := cl) hi1 hb hcap1 hA1 hm1
     have ext : Ext cl s.heap s'.heap := by
       have := hx.trans (q5 hx.inv)
       rw [hh1] at this; exact this
-    exact retop_redispatch ai hA s1 s' e1 (redisp s2 r q1 q2 q3 q4) ext
+    refine retop_redispatch ai hA s1 s' e1 (redisp s2 r q1 q2 q3 q4) ?_ hacc ext
+    intro m' hm' i hi1' hi2'
+    exfalso
+    have := builtinEvalProc_blk hb
+    rw [q1] at hm' hi1' hi2'
+    rw [this] at hm'
+    cases hm'
+    omega
   · -- call/cc
     obtain ⟨hm1', cst, c1, c2, c3, c4, r⟩ := builtinCallcc_ok hb hcap1 hA1 hm1
+    obtain ⟨_, hk1, cst2, hk2⟩ := builtinCallcc_new hb hA1
     subst hm1'
     subst e1
     simp only at c1 c3 c4
     -- the captured continuation is the snapshot of the state this call returns to
-    obtain ⟨lo, ⟨m0, h1, h2, h3⟩, _, _, hre⟩ := ai.hw.wf.frames.inv_body ai.ht ai.hst (by simp)
+    obtain ⟨lo, ⟨m0, h1, h2, _, h3⟩, _, _, hre⟩ := ai.hw.wf.frames.inv_body ai.ht ai.hst (by simp)
     rw [hA] at h1; cases h1
     obtain ⟨st', hst', hm'⟩ := flowsTo_sound hfl h3
-    have hcw : ContWF (tyOf (cl.code s.heap)) cl.e ⟨cst, s.ep, s.ipL, s.ipO + 1, s.bp⟩ K := by
-      refine ⟨c2, ?_⟩
-      show Frames _ _ cst.cellAt cst.sp s.bp s.ipL (s.ipO + 1) K
-      have e : cst.sp = s.stack.sp - 1 - 1 := by omega
-      rw [e]
-      exact hre cst.cellAt _ _ st' (fun i hi => c3 i (by omega)) hst'
-        (hm'.congr (fun i hi => c3 i (by omega)))
+    have hcw : ContWF cl.Val (tyOf (cl.code s.heap)) cl.e ⟨cst, s.ep, s.ipL, s.ipO + 1, s.bp⟩ K := by
+      refine ⟨c2, ?_, ?_⟩
+      · show Frames _ _ _ cst.cellAt cst.sp s.bp s.ipL (s.ipO + 1) K
+        have e : cst.sp = s.stack.sp - 1 - 1 := by omega
+        rw [e]
+        exact hre cst.cellAt _ _ st' (fun i hi => c3 i (by omega)) hst'
+          (hm'.congr (fun i hi => c3 i (by omega)))
+      · intro t2 ht2
+        show stateAt t2.tm (s.ipO + 1) ≠ some .pre
+        have e : t2 = t := by
+          have := ai.ht
+          simp only at ht2
+          rw [ht2] at this
+          exact Option.some.inj this
+        rw [e, hst']
+        intro hh
+        exact hm'.ne_pre (Option.some.inj hh)
     have hi2 : cl.HInv s2.heap := by rw [c4]; exact cl.newCont_inv ai.hw.inv hcw
     have ext2 : Ext cl s.heap s2.heap :=
       ⟨hi2, fun l bc hc => by rw [c4]; exact cl.newCont_code ai.hw.inv hc⟩
-    exact retop_redispatch ai hA _ s' rfl (redisp s2 r q1 q2 q3 q4) (ext2.trans (q5 hi2))
+    refine retop_redispatch ai hA _ s' rfl (redisp s2 r q1 q2 q3 q4) ?_ hacc (ext2.trans (q5 hi2))
+    intro m' hm' i hi1' hi2'
+    rw [q1] at hm' hi1' hi2' ⊢
+    rw [hk1] at hm'; cases hm'
+    have ei : i = s2.stack.sp - 1 := by omega
+    rw [ei, hk2]
+    exact cl.newCont_val _ _
   · -- generic
     obtain ⟨g1, g2, g3, g4, g5, g6⟩ := builtinGeneric_ok (cl := cl) hi1 hb hA1
     subst e1
     simp only at g1 g2 g3 g4 g5 g6
     exact retop_return ai hfl hA s' (by rw [q1]; exact g1) (by rw [q1]; exact g2) (by rw [q2]; exact g3)
-      (by rw [q3]; exact g4) (by rw [q4]; exact g5) (g6.trans (q5 g6.inv))
+      (by rw [q3]; exact g4) (by rw [q4]; exact g5) hacc (g6.trans (q5 g6.inv))
 
 /-- CALL/TCALL of a continuation: the restored snapshot is WF -/
 theorem pres_invoke {cl : CodeLaws ops} {s s1 s' : St H} {K : List FDesc}
     (hw : WFS cl s K) (e1 : s1 = { s with ipO := s.ipO + 1 }) {c : Cont}
-    (hc : ops.callee s.heap s.acc = .continuation c) (hs : invokeCont s1 c = .ok s') :
+    (hc : ops.callee s.heap s.acc = .continuation c) (hs : invokeCont s1 c = .ok s')
+    (hbv : ∀ m, s.stack.cellAt s.stack.sp = .argc m → ∀ i, s.stack.sp - 1 - m < i → i < s.stack.sp →
+      cl.Val (s.stack.cellAt i)) :
     ∃ K', WFS cl s' K' := by
   obtain ⟨Kc, hcw⟩ := cl.cont_wf hw.inv hc
   obtain ⟨q1, q2, q3, q4, q5, q6, q7⟩ := invokeCont_ok hs
+  obtain ⟨m, a1, a2, a3⟩ := invokeCont_acc hs
   subst e1
-  simp only at q7
-  refine ⟨Kc, by rw [q7]; exact hw.inv, by rw [q1]; have := hcw.cap; omega, ?_⟩
-  rw [q1, q4, q5, q6, q7]
-  exact hcw.frames.congr (fun i hi => q3 i (by have := hcw.cap; omega))
+  simp only at q7 a1 a2 a3
+  refine ⟨Kc, by rw [q7]; exact hw.inv, ⟨by rw [q1]; have := hcw.cap; omega, ?_⟩, ?_, ?_⟩
+  · rw [q1, q4, q5, q6, q7]
+    exact hcw.frames.congr (fun i hi => q3 i (by have := hcw.cap; omega))
+  · rw [a3]
+    exact hbv m a1 _ (by omega) (by omega)
+  · intro t2 n2 ht2 hpre _
+    rw [q5, q7] at ht2
+    rw [q6] at hpre
+    exact absurd hpre (hcw.body t2 ht2)
 
 /-- what one instruction does to the ghost list of frames -/
 def KStep (ops : HeapOps H) (s s' : St H) (K K' : List FDesc) : Prop :=
@@ -681,7 +842,7 @@ theorem pres_call {cl : CodeLaws ops} {s s1 s' : St H} {K : List FDesc} {t : Lam
     exact ⟨K, pres_builtin ai chk e1 he, .inl rfl⟩
   | continuation c =>
     rw [hc] at he
-    obtain ⟨K', h⟩ := pres_invoke ai.hw e1 hc he
+    obtain ⟨K', h⟩ := pres_invoke ai.hw e1 hc he (fun m hA => ai.call_vals hA)
     exact ⟨K', h, .inr (.inr (.inr ⟨c, hc⟩))⟩
   | other => rw [hc] at he; cases he
   | closure lam env =>
@@ -690,7 +851,7 @@ theorem pres_call {cl : CodeLaws ops} {s s1 s' : St H} {K : List FDesc} {t : Lam
     cases he
     subst e1
     obtain ⟨tl, htl, hent⟩ := cl.callee_closure ai.hw.inv hc
-    obtain ⟨m, _, hd⟩ := pres_call_proc ai chk htl hent
+    obtain ⟨m, _, hd⟩ := pres_call_proc ai chk htl hent (by unfold enterLam; rw [hc])
     exact ⟨_, hd, .inr (.inl ⟨_, rfl⟩)⟩
   | lambda =>
     rw [hc] at he
@@ -699,40 +860,55 @@ theorem pres_call {cl : CodeLaws ops} {s s1 s' : St H} {K : List FDesc} {t : Lam
     cases he
     subst e1
     have hacc : s.acc = .ptr lam := asPtr_ok hp
+    have hc' := hc
     rw [hacc] at hc
     obtain ⟨tl, htl, hent⟩ := cl.callee_lambda ai.hw.inv hc
-    obtain ⟨m, _, hd⟩ := pres_call_proc ai chk htl hent
+    obtain ⟨m, _, hd⟩ := pres_call_proc ai chk htl hent (by unfold enterLam; rw [hc', hacc])
     exact ⟨_, hd, .inr (.inl ⟨_, rfl⟩)⟩
 
 /-- TCALL to a verified procedure: the replaced frame's description is unchanged -/
 theorem pres_tcall_proc {cl : CodeLaws ops} {s s' : St H} {K : List FDesc} {t : LamTy} {a : List ACell}
     (ai : AtInstr cl s K t (.call a) .tcallAcc) (hent0 : t.entry = false)
     {lam : Nat} {tl : LamTy} (htl : tyOf (cl.code s.heap) lam = some tl) (hent : tl.entry = false)
+    (hlam : enterLam ops s.heap s.acc = some lam)
     (he : tcallTail { s with ipO := s.ipO + 1 } lam = .ok s') : WFS cl s' K := by
   obtain ⟨n, ep', l', o', bp', K', hm, hA, hE, hI, hB, hn, hfr, hK⟩ :=
     ai.hw.wf.frames.inv_frame ai.ht hent0 ai.hst (by simp)
-  obtain ⟨m, hm1, hm2, hm3⟩ := hm
+  obtain ⟨n3, l3, o3, hA3, hI3, _, _, _, hnp⟩ := ai.hw.wf.frames.inv_args ai.ht hent0 ai.hst (by simp)
+  rw [hI] at hI3; cases hI3
+  obtain ⟨m, hm1, hm2, hbv, hm3⟩ := hm
   obtain ⟨r1, r2, r3, r4, r5, r6, r7, r8, r9, r10⟩ :=
     tcallTail_ok (s := { s with ipO := s.ipO + 1 }) he ai.hw.wf.cap hA hE hI hB hm1 (by show s.bp + 4 + m < s.stack.sp; omega) hn
-  simp only at r1 r3 r4 r5 r6 r10
+  have rargs := tcallTail_args (s := { s with ipO := s.ipO + 1 }) he ai.hw.wf.cap hA hE hI hB hm1
+    (by show s.bp + 4 + m < s.stack.sp; omega) hn
+  have racc : s'.acc = s.acc := tcallTail_acc he
+  simp only at r1 r3 r4 r5 r6 r10 rargs
   have hpre : stateAt tl.tm 0 = some .pre := by
     have := checkAll_init (tyOf_spec htl).2
     rw [hent] at this
     simpa [initState] using this
-  refine ⟨by rw [r10]; exact ai.hw.inv, r2, ?_⟩
-  rw [r10, r7, r8, r9, hK]
-  have e1 : s.bp + 1 - n = s'.stack.sp - 2 - m := by omega
-  rw [e1]
-  refine Frames.pre (n := m) htl hent hpre (by omega) ?_ ?_ ?_ ?_
-  · have : s'.stack.sp = s.bp - n + m + 3 := r1
-    rw [this]; exact r5
-  · have : s'.stack.sp - 1 = s.bp - n + m + 2 := by omega
-    rw [this]; exact r4
-  · have : s'.stack.sp - 2 = s.bp - n + m + 1 := by omega
-    rw [this]; exact r3
-  · have : s'.stack.sp - 3 - m = s.bp - n := by omega
-    rw [this]
-    exact hfr.congr (fun i hi => r6 i (by omega))
+  refine ⟨by rw [r10]; exact ai.hw.inv, ⟨r2, ?_⟩, by rw [racc]; exact ai.hw.acc, ?_⟩
+  · rw [r10, r7, r8, r9, hK]
+    have e1 : s.bp + 1 - n = s'.stack.sp - 2 - m := by omega
+    rw [e1]
+    refine Frames.pre (n := m) htl hent hpre (by omega) ?_ ?_ ?_ ?_ hnp ?_
+    · have : s'.stack.sp = s.bp - n + m + 3 := r1
+      rw [this]; exact r5
+    · have : s'.stack.sp - 1 = s.bp - n + m + 2 := by omega
+      rw [this]; exact r4
+    · have : s'.stack.sp - 2 = s.bp - n + m + 1 := by omega
+      rw [this]; exact r3
+    · intro i hi1 hi2
+      obtain ⟨j, j1, j2, j3⟩ := rargs i (by omega) (by omega)
+      rw [j3]
+      exact hbv j j1 j2
+    · have : s'.stack.sp - 3 - m = s.bp - n := by omega
+      rw [this]
+      exact hfr.congr (fun i hi => r6 i (by omega))
+  · intro t2 n2 _ _ _
+    right
+    rw [r10, racc, r8]
+    exact hlam
 
 theorem pres_tcall {cl : CodeLaws ops} {s s1 s' : St H} {K : List FDesc} {t : LamTy} {st : AState} {b : Bool}
     (ai : AtInstr cl s K t st .tcallAcc) (hr : readOpcode ops s = .ok (.tcallAcc, s1))
@@ -757,7 +933,7 @@ theorem pres_tcall {cl : CodeLaws ops} {s s1 s' : St H} {K : List FDesc} {t : La
   | continuation c =>
     unfold stepTCall at he
     rw [hcal, hc] at he
-    obtain ⟨K', h⟩ := pres_invoke ai.hw e1 hc he
+    obtain ⟨K', h⟩ := pres_invoke ai.hw e1 hc he (fun m hA => ai.call_vals hA)
     exact ⟨K', h, .inr (.inr (.inr ⟨c, hc⟩))⟩
   | other =>
     unfold stepTCall at he
@@ -766,15 +942,16 @@ theorem pres_tcall {cl : CodeLaws ops} {s s1 s' : St H} {K : List FDesc} {t : La
     rw [stepTCall_closure (by rw [hcal]; exact hc)] at he
     subst e1
     obtain ⟨tl, htl, hent⟩ := cl.callee_closure ai.hw.inv hc
-    exact ⟨K, pres_tcall_proc ai hent0 htl hent he, .inl rfl⟩
+    exact ⟨K, pres_tcall_proc ai hent0 htl hent (by unfold enterLam; rw [hc]) he, .inl rfl⟩
   | lambda =>
     rw [stepTCall_lambda (by rw [hcal]; exact hc)] at he
     obtain ⟨lam, hp, he⟩ := bind_inv he
     subst e1
     have hacc : s.acc = .ptr lam := asPtr_ok hp
+    have hc' := hc
     rw [hacc] at hc
     obtain ⟨tl, htl, hent⟩ := cl.callee_lambda ai.hw.inv hc
-    exact ⟨K, pres_tcall_proc ai hent0 htl hent he, .inl rfl⟩
+    exact ⟨K, pres_tcall_proc ai hent0 htl hent (by unfold enterLam; rw [hc', hacc]) he, .inl rfl⟩
 
 theorem pres_vararg {cl : CodeLaws ops} {s s1 s' : St H} {K : List FDesc} {t : LamTy} {st : AState} {b : Bool}
     (ai : AtInstr cl s K t st .varArg) (hr : readOpcode ops s = .ok (.varArg, s1))
@@ -791,17 +968,32 @@ theorem pres_vararg {cl : CodeLaws ops} {s s1 s' : St H} {K : List FDesc} {t : L
     try (exact absurd chk Bool.false_ne_true)
   obtain ⟨c1, c2⟩ := chk
   obtain ⟨hent, n, ep', l', o', K', hn, hI, hE, hA, hfr, hK⟩ := ai.hw.wf.frames.inv_pre ai.ht ai.hst
+  obtain ⟨n2, l2, o2, hA2, hI2, _, hav, hnp⟩ := ai.hw.wf.frames.inv_pre_args ai.ht ai.hst
+  rw [hA] at hA2; cases hA2
+  rw [hI] at hI2; cases hI2
   obtain ⟨n', v1, v2, v3, v4, v5, v6, v7, v8, v9, v10, v11⟩ :=
     stepVarArg_ok (cl := cl) (s := { s with ipO := s.ipO + 1 }) ai.hw.inv he ai.hw.wf.cap hn hI hE hA
-  simp only at v3 v7 v8 v9 v10 v11
-  refine ⟨v11.inv, v1, ?_⟩
-  refine Frames.mono v11.ty ?_
-  rw [v8, v9, v10, hK]
-  have eb : s.stack.sp - 2 - n = s'.stack.sp - 2 - n' := by omega
-  rw [eb]
-  refine Frames.pre (n := n') ai.ht hent c2 v2 v4 v5 v6 ?_
-  rw [v3]
-  exact hfr.congr (fun i hi => v7 i hi)
+  obtain ⟨info, w1, w2, w3⟩ :=
+    stepVarArg_vals (cl := cl) (s := { s with ipO := s.ipO + 1 }) ai.hw.inv he hn hA hav
+  have wacc : s'.acc = s.acc := stepVarArg_acc (s := { s with ipO := s.ipO + 1 }) he
+  simp only at v3 v7 v8 v9 v10 v11 w1 w2 w3
+  rw [v6] at w2; cases w2
+  have hneed : argNeed t.bc ≤ info.argc := cl.info_code ai.hw.inv (tyOf_spec ai.ht).1 w1
+  refine ⟨v11.inv, ⟨v1, ?_⟩, by rw [wacc]; exact ai.hw.acc, ?_⟩
+  · refine Frames.mono v11.ty ?_
+    rw [v8, v9, v10, hK]
+    have eb : s.stack.sp - 2 - n = s'.stack.sp - 2 - info.argc := by omega
+    rw [eb]
+    refine Frames.pre (n := info.argc) ai.ht hent c2 v2 v4 v5 v6 w3 hnp ?_
+    rw [v3]
+    exact hfr.congr (fun i hi => v7 i hi)
+  · intro t2 n2 ht2 _ hA2
+    left
+    rw [v9] at ht2
+    have := ty_unique v11 ai.ht ht2
+    subst this
+    rw [v6] at hA2; cases hA2
+    exact hneed
 
 /-- CALL of a closure, with the description of the frame it creates: it starts at the first
     argument, and will restore the caller's `ep`, the instruction after the CALL, and the caller's `bp` -/
@@ -825,7 +1017,7 @@ theorem call_closure_desc {cl : CodeLaws ops} {s s1 s' : St H} {K : List FDesc} 
   cases he
   subst e1
   obtain ⟨tl, htl, hent⟩ := cl.callee_closure ai.hw.inv hc
-  obtain ⟨m, hA, hd⟩ := pres_call_proc ai chk htl hent
+  obtain ⟨m, hA, hd⟩ := pres_call_proc ai chk htl hent (by unfold enterLam; rw [hc])
   have e : s.stack.sp + 2 - 2 - m = s.stack.sp - m := by omega
   rw [e] at hd
   exact ⟨m, hA, hd⟩
@@ -879,7 +1071,7 @@ theorem tcall_closure_desc {cl : CodeLaws ops} {s s1 s' : St H} {K : List FDesc}
   rw [stepTCall_closure (by rw [hcal]; exact hc)] at he
   subst e1
   obtain ⟨tl, htl, hent⟩ := cl.callee_closure ai.hw.inv hc
-  exact pres_tcall_proc ai hent0 htl hent he
+  exact pres_tcall_proc ai hent0 htl hent (by unfold enterLam; rw [hc]) he
 
 theorem vararg_desc {cl : CodeLaws ops} {s s1 s' : St H} {K : List FDesc}
     (hw : WFS cl s K) (hr : readOpcode ops s = .ok (.varArg, s1))
